@@ -66,7 +66,7 @@ Definition kb_oracle (input b : json) : option string :=
   end.
 
 (* C02/C06: the built presentation carries the issuer JWT and exactly the disclosures that are not withheld *)
-Definition build_oracle (input b : json) (o : json) : option string :=
+Definition build_oracle (final : bool) (input b : json) (o : json) : option string :=
   let e := jget "expect" input in
   let want := jstr_or_empty (jget "build" e) in
   if obs_is "panic" o then Some "Holder::build panics"
@@ -77,7 +77,7 @@ Definition build_oracle (input b : json) (o : json) : option string :=
     let '(jwt, ds, kb) := sd_jwt_parts p in
     let '(jwt0, _, _) := sd_jwt_parts (jstr_or_empty (jget "token" input)) in
     if negb (String.eqb jwt jwt0) then Some "the issuer JWT segment was changed"
-    else if jbool (jget "judge_disclosures" input) && negb (json_eqb (JArr (sort_json (map JStr ds))) (expected_strings e)) then
+    else if final && jbool (jget "judge_disclosures" input) && negb (json_eqb (JArr (sort_json (map JStr ds))) (expected_strings e)) then
       Some "the presentation does not carry exactly the disclosures of the claims that are not withheld"
     else kb_oracle input b.
 
@@ -111,23 +111,26 @@ Definition leak_oracle (input b : json) : option string :=
   | [], s :: _ => Some ("a withheld claim leaks into the presentation: " ++ s)
   | [], [] => None end.
 
-Definition case_present_build (O : oracles) (input : json) (h : out holder) (b : json) : verdict :=
+(* final = every redaction of the case has been applied (the case's expectations describe that state); an earlier
+   build of a staged case is judged by model agreement, framing and the key-binding oracle only *)
+Definition case_present_build (O : oracles) (input : json) (final : bool) (h : out holder) (b : json) : verdict :=
   let nt := jbool (jget "nontrivial" input) in
   let bo := jget "build" b in
   let E := env_of_build b in
   let O' := with_kb_tables O input b in
   let mb := obs_of_out JStr (dO hh <- h; holder_build O' E hh) in
-  let v1 := decide (fun o => match build_oracle input b o with
+  let v1 := decide (fun o => match build_oracle final input b o with
                              | Some w => Some w
-                             | None => if obs_is "ok" o then leak_oracle input b else None end) bo mb nt "Holder::build" in
+                             | None => if final && obs_is "ok" o then leak_oracle input b else None end) bo mb nt "Holder::build" in
   if obs_is "ok" bo then
     let p := jstr_or_empty (obs_val bo) in
     let kbpol := match jget "kbpol" (jget "verifier" input) with JObj _ => true | _ => false end in
     let mv := obs_of_out (fun r : json * json => let '(hd, c) := r in JArr [hd; c]) (verifier_verify O' p kbpol) in
     let e := jget "expect" input in
-    let v2 := decide (expect_oracle e (jstr_or_empty (jget "verify" e)) (Some 1) None) (jget "verify" b) mv nt "Verifier::verify" in
+    let v2 := decide (if final then expect_oracle e (jstr_or_empty (jget "verify" e)) (Some 1) None
+                      else fun o => if obs_is "panic" o then Some "panics" else None) (jget "verify" b) mv nt "Verifier::verify" in
     (* C08: the presentation the library's holder derived also verifies under the independent verifier *)
-    let v3 := if jbool (jget "ref_check" input) then
+    let v3 := if final && jbool (jget "ref_check" input) then
                 match jlist (jget "jwt" input) with
                 | JArr [_; _; payload] :: _ =>
                     let '(_, ds, _) := sd_jwt_parts p in
@@ -157,6 +160,15 @@ Definition case_present (input obs : json) : verdict :=
   let v0 := decide (fun o => if obs_is "panic" o then Some "panics" else if obs_is "ok" o then None else Some "Holder::presentation rejects a conformant SD-JWT")
                    po mp nt "Holder::presentation" in
   let builds := jlist (jget "builds" obs) in
-  let vs := fold_left (fun acc b => worst acc (case_present_build O input h b)) builds v0 in
+  (* staged redaction: "redact_after"[i] is applied to the same Holder between build i and build i+1 *)
+  let stages := map jstrs (jlist (jget "redact_after" input)) in
+  let step (st : verdict * out holder * nat) (b : json) :=
+    let '(acc, hh, i) := st in
+    let hh' := match i with
+               | O => hh
+               | S j => dO x <- hh; Val (fold_left holder_redact (nth j stages []) x) end in
+    let remaining := List.length (filter (fun l => match l with [] => false | _ => true end) (skipn i stages)) in
+    (worst acc (case_present_build O input (Nat.eqb remaining 0) hh' b), hh', S i) in
+  let vs := fst (fst (fold_left step builds (v0, h, 0))) in
   let nonces := flat_map (fun b => match jget "nonce" (jget "claims" (jget "kb" b)) with JStr n => [n] | _ => [] end) builds in
   if all_distinct nonces then vs else worst vs (VPropFail "Holder::build: the nonce repeats across builds").
